@@ -11,7 +11,7 @@ CONSTANTS NJobs,       \* tasks the environment may feed (numbered in feed order
           Quota,       \* maxtasks, 0 = none
           Synack,      \* BOOLEAN: acknowledgement handshake enabled
           GuardLimit,  \* retries of the result-consumption guard (300 in production)
-          Kinds,       \* how a task may end: subset of {"ok","raise","baseexc","unpicklable","unpicklable_deep","unpicklable_badrepr","memover"}
+          Kinds,       \* how a task may end: subset of {"ok","raise","raise_deep","baseexc","unpicklable","unpicklable_deep","unpicklable_badrepr","memover"}
           Signals,     \* BOOLEAN: a termination signal may arrive at any blocking point
           Cancels,     \* BOOLEAN: the parent may cancel a job before its ACK is processed
           Refusals,    \* BOOLEAN: the accept callback of every even-numbered job raises (the parent
@@ -56,7 +56,8 @@ Init == /\ pc = "wait" /\ cur = 0 /\ completed = 0 /\ inq = <<>> /\ fed = 0 /\ s
         /\ onexit = 0 /\ executed = <<>> /\ cancelled = {} /\ nacked = {} /\ termreq = FALSE
         /\ now = 0 /\ act = [name |-> "Init"]
 
-Ack(j) == [t |-> "ACK", j |-> j, pid |-> Pid, time |-> now]
+Ack(j) == [t |-> "ACK", j |-> j, pid |-> Pid, time |-> now,
+           fd |-> IF Synack THEN "syn" ELSE "none"]     \* the descriptor the parent is to answer on
 Ready(j, r) == [t |-> "READY", j |-> j, res |-> r]
 Death(c) == [t |-> "DEATH", pid |-> Pid, code |-> c]
 
@@ -149,7 +150,7 @@ Finish(kind) ==   \* the task function returns / raises; result(s) written
     /\ pc = "run" /\ kind \in Kinds
     /\ LET j == cur
            res == CASE kind \in {"ok", "memover"} -> "ok"
-                    [] kind = "raise" -> "err"
+                    [] kind \in {"raise", "raise_deep"} -> "err"    \* raise_deep: from a stack about as deep as the recursion limit allows
                     [] kind = "baseexc" -> "baseerr"
                     [] kind \in Unsendable -> "encerr"
        IN /\ out' = Append(out, Ready(j, res))
@@ -233,7 +234,8 @@ StreamShape ==
         /\ (out[k].t = "ACK" /\ k > 1 => out[k - 1].t = "READY" \/ out[k - 1].j \in nacked)
 OneResultPerJob == \A j \in 1..NJobs :
         Cardinality({k \in 1..Len(out) : out[k].t = "READY" /\ out[k].j = j}) <= 1
-AckCarries == \A k \in 1..Len(out) : out[k].t = "ACK" => out[k].pid = Pid /\ out[k].time <= now
+AckCarries == \A k \in 1..Len(out) : out[k].t = "ACK" =>
+                  (out[k].pid = Pid /\ out[k].time <= now /\ out[k].fd = (IF Synack THEN "syn" ELSE "none"))
 ResultOnlyAfterAccept == \A k \in 1..Len(out) : out[k].t = "READY" =>
         \E a \in 1..(k - 1) : out[a].t = "ACK" /\ out[a].j = out[k].j
 (* NACK honoured *)
